@@ -269,7 +269,7 @@ func runReceiptScenario(c *check.Ctx, bin, mode string, nConn int, cases []recei
 		if mode == "down" || mode == "slow" || mode == "hang" || mode == "drop" {
 			// bounded wait only; no verdict is drawn from it
 		} else {
-			c.Inconc("C19: forwarding goroutines did not finish")
+			c.Report(c19f("forward/valid-receipt-not-forwarded", trig, "30 s after every submission was answered, forwarding to the reachable credit service (mode %s: it answers at once) has not finished", mode))
 			return
 		}
 	}
@@ -396,7 +396,7 @@ func runReceiptBurst(c *check.Ctx, bin string, nConn, per int, st *c19stats, mu 
 	close(start)
 	wg.Wait()
 	if !awaitForwards(p) {
-		c.Inconc("C19 burst: forwarding goroutines did not finish")
+		c.Report(c19f("forward/valid-receipt-not-forwarded", trig, "30 s after a burst of %d receipts was answered, forwarding to the reachable credit service (which answers at once) has not finished: %d POSTs were received", nConn*per, len(ncs.Posts())))
 		return
 	}
 	byText := map[string][]fakes.Post{}
